@@ -14,9 +14,9 @@ CONSTANTS
   Limits = {0, 1, 2, 3}
   RangeSlack = 2
   MaxSteps = 24
-  InvalidateCacheOnReorg = FALSE
-  SnapshotConsumedOnLoad = FALSE
-  DropReopenedWindow = FALSE
+  InvalidateCacheOnReorg = TRUE
+  SnapshotConsumedOnLoad = TRUE
+  DropReopenedWindow = TRUE
 INIT MBTInit
 NEXT MBTNext
 CHECK_DEADLOCK FALSE
